@@ -23,7 +23,7 @@ ANCHORS = ["TrajectoryPrediction.occupancy_set", "TrajectoryPrediction._invalida
            "DynamicObstacle.update_prediction", "LaneletNetwork.translate_rotate", "LaneletNetwork._create_strtree",
            "LaneletNetwork.add_lanelet", "LaneletNetwork.remove_lanelet", "TrafficLightCycle.cycle_init_timesteps",
            "Lanelet.translate_rotate"]
-REQUIRED = ["kind.dynamic", "kind.static", "kind.lanelet", "kind.network", "kind.scenario", "kind.cycle",
+REQUIRED = ["lanelet.curved", "network.has-a-curved-lanelet", "kind.dynamic", "kind.static", "kind.lanelet", "kind.network", "kind.scenario", "kind.cycle",
             "op.obstacle.translate_rotate", "op.prediction.translate_rotate", "op.trajectory.translate_rotate",
             "op.prediction=", "op.update_prediction", "op.trajectory=", "op.shape=", "op.update_initial_state",
             "op.network.translate_rotate", "op.add_lanelet", "op.remove_lanelet", "op.scenario.translate_rotate",
@@ -341,6 +341,10 @@ def run(ctx):
 
     def run_net(rng, ops, in_scenario, deferred_build=False):
         lanelets, _ = lattice.gen_lanelets(rng, nmax=4)
+        # one lanelet that follows a curve, far from the others: its boundary segments are shorter / longer than its centre
+        # segments, so that distance and inner distance are different numbers
+        lanelets.append(lattice.lanelet(950, lattice.arc(300.0, 300.0, 20.0, 4.0)))
+        ctx.feature("network.has-a-curved-lanelet")
         if deferred_build and not in_scenario:
             # built lanelet by lanelet WITHOUT an index (rtree=False) and not queried before the first mutation
             net = LaneletNetwork()
@@ -471,6 +475,13 @@ def run(ctx):
         elif slk == "point-less":
             kw_sl["stop_line"] = StopLine(None, None, LineMarking.SOLID)
         ctx.feature("lanelet.stop-line-" + slk)
+        if (n_lanelet_runs[0] // 3) % 2 == 1:
+            # a lanelet along a quarter circle: the centre line is longer than the inner and shorter than the outer boundary
+            pl = lattice.arc(rng.uniform(-5, 5), rng.uniform(-5, 5), rng.choice([12.0, 20.0]), 4.0)
+            if "stop_line" in kw_sl and slk == "with-points":
+                kw_sl["stop_line"] = StopLine(np.array(pl[0][-1], dtype=float), np.array(pl[2][-1], dtype=float),
+                                              LineMarking.SOLID)
+            ctx.feature("lanelet.curved")
         la = lattice.lanelet(1, pl, **kw_sl)
         _ = la.polygon, la.distance, la.inner_distance
         L0 = float(la.distance[-1])
@@ -483,7 +494,14 @@ def run(ctx):
             fr = Lanelet(la.left_vertices.copy(), la.center_vertices.copy(), la.right_vertices.copy(), 1)
             # the same arc lengths as before the motion (the length does not change under a rigid motion), last one first
             for s_ in fracs[::-1]:
-                a_, b_ = la.interpolate_position(s_), fr.interpolate_position(s_)
+                b_ = fr.interpolate_position(s_)
+                try:
+                    a_ = la.interpolate_position(s_)
+                except Exception as e:  # noqa
+                    ctx.violation("C11/lanelet/stale-interpolate_position/after-translate_rotate/raises-%s" % type(e).__name__,
+                                  "s=%r is accepted by a fresh lanelet of the same vertices, the moved one raises %s" % (
+                                      s_, repr(e)[:160]), {"kind": "lanelet"})
+                    return
                 if any(np.abs(np.asarray(x_) - np.asarray(y_)).max() > 1e-7 for x_, y_ in zip(a_[:3], b_[:3])) or a_[3] != b_[3]:
                     ctx.violation("C11/lanelet/stale-interpolate_position/after-translate_rotate",
                                   "s=%r: %s on the moved lanelet, %s on a fresh one" % (s_, a_[0], b_[0]), {"kind": "lanelet"})
